@@ -3,7 +3,8 @@
 From Coq Require Import NArith ZArith List Bool.
 From CB Require Import Contract.Text Contract.TextProofs Contract.TimeProofs Contract.Names Contract.NamesProofs
   Contract.CheckedArith Contract.CheckedArithProofs
-  Contract.CcCodec Contract.CcCodecProofs Contract.CcTypes Contract.CcTypesProofs.
+  Contract.CcCodec Contract.CcCodecProofs Contract.CcTypes Contract.CcTypesProofs
+  Contract.Base58 Contract.Base58Proofs.
 Import ListNotations.
 Local Open Scope N_scope.
 
@@ -47,6 +48,81 @@ Theorem timestamp_before_fix_witnesses :
 Proof. exact (conj (proj2 timestamp_prefix_refuted_max) timestamp_prefix_refuted_year10000). Qed.
 Print Assumptions timestamp_before_fix_witnesses.
 
+(** * AccountAddress: Base58Check with version byte 1; the checksum function (first four
+      bytes of SHA-256 of SHA-256) is abstract: any function returning four bytes *)
+
+Theorem account_address_parse_print : forall (H4 : list N -> list N),
+  (forall p, length (H4 p) = 4%nat) -> (forall p, Forall (fun d => d < 256) (H4 p)) ->
+  forall a, length a = 32%nat -> Forall (fun d => d < 256) a ->
+  parse_account_address H4 (print_account_address H4 a) = Some a.
+Proof. exact account_address_parse_print_all. Qed.
+Print Assumptions account_address_parse_print.
+
+(** the parser accepts exactly the printed strings (so: canonical text, and every string
+    with a wrong checksum, version or length is rejected) *)
+Theorem account_address_accepts_exactly_printed : forall (H4 : list N -> list N),
+  (forall p, length (H4 p) = 4%nat) -> (forall p, Forall (fun d => d < 256) (H4 p)) ->
+  forall s a, parse_account_address H4 s = Some a <->
+              s = print_account_address H4 a /\ length a = 32%nat /\ Forall (fun d => d < 256) a.
+Proof. exact account_address_accepts_iff. Qed.
+Print Assumptions account_address_accepts_exactly_printed.
+
+Theorem account_address_wrong_checksum_rejected : forall (H4 : list N -> list N),
+  (forall p, length (H4 p) = 4%nat) -> (forall p, Forall (fun d => d < 256) (H4 p)) ->
+  forall p ck, Forall (fun d => d < 256) p -> Forall (fun d => d < 256) ck -> length ck = 4%nat ->
+  ck <> H4 p -> parse_account_address H4 (b58_encode (p ++ ck)) = None.
+Proof. exact account_address_rejects_checksum. Qed.
+Print Assumptions account_address_wrong_checksum_rejected.
+
+Theorem account_address_wrong_version_rejected : forall (H4 : list N -> list N),
+  (forall p, length (H4 p) = 4%nat) -> (forall p, Forall (fun d => d < 256) (H4 p)) ->
+  forall v a, Forall (fun d => d < 256) (v :: a) -> v <> 1 ->
+  parse_account_address H4 (b58_encode ((v :: a) ++ H4 (v :: a))) = None.
+Proof. exact account_address_rejects_version. Qed.
+Print Assumptions account_address_wrong_version_rejected.
+
+Theorem account_address_wrong_length_rejected : forall (H4 : list N -> list N),
+  (forall p, length (H4 p) = 4%nat) -> (forall p, Forall (fun d => d < 256) (H4 p)) ->
+  forall a, Forall (fun d => d < 256) a -> length a <> 32%nat ->
+  parse_account_address H4 (b58_encode ((1 :: a) ++ H4 (1 :: a))) = None.
+Proof. exact account_address_rejects_length. Qed.
+Print Assumptions account_address_wrong_length_rejected.
+
+(** Base58 is a bijection between byte strings and strings over the alphabet *)
+Theorem base58_decode_encode : forall bs, Forall (fun d => d < 256) bs -> b58_decode (b58_encode bs) = Some bs.
+Proof. exact b58_decode_encode. Qed.
+Print Assumptions base58_decode_encode.
+
+Theorem base58_encode_decode : forall s raw, b58_decode s = Some raw ->
+  b58_encode raw = s /\ Forall (fun d => d < 256) raw.
+Proof. exact b58_encode_decode. Qed.
+Print Assumptions base58_encode_decode.
+
+Theorem radix_conversion_inverse : forall b1 b2 ds, 2 <= b1 -> 2 <= b2 -> Forall (fun d => d < b1) ds ->
+  convert b2 b1 (convert b1 b2 ds) = ds.
+Proof. exact convert_inverse. Qed.
+Print Assumptions radix_conversion_inverse.
+
+(** * Hexadecimal forms: hashes (hex::decode, both cases accepted) and keys / signatures *)
+Theorem hash_parse_print : forall h, length h = 32%nat -> Forall (fun d => d < 256) h ->
+  parse_hash (hex_print h) = Some h.
+Proof. exact hash_parse_print_all. Qed.
+Print Assumptions hash_parse_print.
+
+Theorem hash_parse_upper_case : forall h, length h = 32%nat -> Forall (fun d => d < 256) h ->
+  parse_hash (hex_print_upper h) = Some h.
+Proof. exact hash_parse_print_upper. Qed.
+Print Assumptions hash_parse_upper_case.
+
+Theorem hash_parse_needs_64_characters : forall s h, parse_hash s = Some h -> length s = 64%nat /\ length h = 32%nat.
+Proof. exact hash_parse_length. Qed.
+Print Assumptions hash_parse_needs_64_characters.
+
+Theorem key_parse_print : forall n k, length k = n -> Forall (fun d => d < 256) k ->
+  parse_key n (hex_print k) = Some k.
+Proof. exact key_parse_print_all. Qed.
+Print Assumptions key_parse_print.
+
 Theorem u64_parse_print : forall n, n < Text.W64 -> parse_u64 (print_dec n) = Some n.
 Proof. exact parse_u64_print_dec. Qed.
 Print Assumptions u64_parse_print.
@@ -77,6 +153,13 @@ Theorem receive_name_construct_parts : forall c e,
   split_dot (construct_receive_name c e) = (skipn 5 c, e).
 Proof. exact construct_receive_name_parts. Qed.
 Print Assumptions receive_name_construct_parts.
+
+Theorem receive_name_construct_valid : forall c e,
+  contract_name_grammar c -> entrypoint_name_grammar e ->
+  N.of_nat (length c) + N.of_nat (length e) <= 104 ->
+  receive_name_grammar (construct_receive_name c e).
+Proof. exact construct_receive_name_valid. Qed.
+Print Assumptions receive_name_construct_valid.
 
 (** * Checked arithmetic is exact or reports overflow *)
 
@@ -114,6 +197,73 @@ Theorem euro_cent_conversion_exact : forall num den cents v, den <> 0 ->
   v * (den * 100) <= num * cents < (v + 1) * (den * 100).
 Proof. exact convert_euro_cent_exact. Qed.
 Print Assumptions euro_cent_conversion_exact.
+
+(** the u128 intermediates of [convert_euro_cent_to_amount] cannot overflow: it never panics *)
+Theorem euro_cent_intermediates_fit : forall num den cents,
+  num < CheckedArith.W64 -> den < CheckedArith.W64 -> cents < CheckedArith.W64 ->
+  num * cents < W128 /\ den * 100 < W128.
+Proof. exact euro_cent_no_intermediate_overflow. Qed.
+Print Assumptions euro_cent_intermediates_fit.
+
+(** the result is the floor of the rational value exactly when that floor fits into 64 bits
+    ([as u64] keeps the low 64 bits otherwise: the overflow is not reported - observation) *)
+Theorem euro_cent_conversion_exact_iff : forall num den cents v, den <> 0 ->
+  convert_euro_cent_to_amount num den cents = Some v ->
+  (v = num * cents / (den * 100) <-> num * cents / (den * 100) < CheckedArith.W64).
+Proof. exact euro_cent_exact_iff. Qed.
+Print Assumptions euro_cent_conversion_exact_iff.
+
+Theorem rational_floor_law : forall a b, b <> 0 -> (a / b) * b <= a < (a / b + 1) * b.
+Proof. exact floor_law. Qed.
+Print Assumptions rational_floor_law.
+
+Theorem euro_cent_conversion_monotone : forall num den c1 c2 v1 v2, den <> 0 -> c1 <= c2 ->
+  num * c2 / (den * 100) < CheckedArith.W64 ->
+  convert_euro_cent_to_amount num den c1 = Some v1 -> convert_euro_cent_to_amount num den c2 = Some v2 ->
+  v1 <= v2.
+Proof. exact euro_cent_monotone_when_fits. Qed.
+Print Assumptions euro_cent_conversion_monotone.
+
+Theorem euro_cent_conversion_truncates_silently :
+  convert_euro_cent_to_amount 200 1 9223372036854775807 = Some 18446744073709551614
+  /\ convert_euro_cent_to_amount 200 1 9223372036854775808 = Some 0
+  /\ 200 * 9223372036854775808 / (1 * 100) = CheckedArith.W64.
+Proof. exact euro_cent_truncation_witness. Qed.
+Print Assumptions euro_cent_conversion_truncates_silently.
+
+(** [convert_amount_to_euro_cent] reports ([None] = overflow panic of the checked build) exactly
+    when the u128 product [micro * 100 * denominator] does not fit (or the numerator is 0) *)
+Theorem amount_to_euro_cent_none_iff_u128_overflow : forall num den micro,
+  convert_amount_to_euro_cent num den micro = None <-> num = 0 \/ W128 <= micro * 100 * den.
+Proof. exact amount_to_euro_cent_none_iff. Qed.
+Print Assumptions amount_to_euro_cent_none_iff_u128_overflow.
+
+(** a reported overflow is a real one: the true quotient then exceeds u64 *)
+Theorem amount_to_euro_cent_reported_overflow_is_real : forall num den micro,
+  num <> 0 -> num < CheckedArith.W64 -> W128 <= micro * 100 * den ->
+  CheckedArith.W64 <= micro * 100 * den / num.
+Proof. exact amount_to_euro_cent_none_sound. Qed.
+Print Assumptions amount_to_euro_cent_reported_overflow_is_real.
+
+Theorem amount_to_euro_cent_exact_iff_fits : forall num den micro v,
+  convert_amount_to_euro_cent num den micro = Some v ->
+  (v = micro * 100 * den / num <-> micro * 100 * den / num < CheckedArith.W64).
+Proof. exact amount_to_euro_cent_exact_iff. Qed.
+Print Assumptions amount_to_euro_cent_exact_iff_fits.
+
+Theorem amount_to_euro_cent_monotone : forall num den m1 m2 v1 v2, m1 <= m2 ->
+  m2 * 100 * den / num < CheckedArith.W64 ->
+  convert_amount_to_euro_cent num den m1 = Some v1 -> convert_amount_to_euro_cent num den m2 = Some v2 ->
+  v1 <= v2.
+Proof. exact amount_to_euro_cent_monotone_when_fits. Qed.
+Print Assumptions amount_to_euro_cent_monotone.
+
+(** ... but an overflow of the 64-bit result below the u128 limit is truncated, not reported *)
+Theorem amount_to_euro_cent_truncates_silently :
+  convert_amount_to_euro_cent 1 1 9223372036854775808 = Some 0
+  /\ 9223372036854775808 * 100 * 1 / 1 = 50 * CheckedArith.W64.
+Proof. exact amount_to_euro_cent_truncation_witness. Qed.
+Print Assumptions amount_to_euro_cent_truncates_silently.
 
 (** * Binary encodings: round trip, canonicity, shrinking, bounded pre-allocation
       ([Laws K c] = [RT c /\ Canon c /\ Shrinks c /\ AllocOK K c]) *)
@@ -261,6 +411,15 @@ Example timestamp_examples :
   /\ parse_timestamp [49;57;54;57;45;49;50;45;51;49;84;50;51;58;48;48;58;48;48;45;48;49;58;48;48] = Ok 0.
 Proof. repeat split; vm_compute; reflexivity. Qed.
 Print Assumptions timestamp_examples.
+
+Example account_address_nonvacuous :
+  let H4 := fun _ : list N => [30; 99; 119; 166] in      (* the real checksum of 01 || 0^32 *)
+  print_account_address H4 (repeat 0 32)
+    = [50;119;107;66;69;84;50;114;82;103;69;56;112;97;104;117;97;99;122;120;75;98;109;118;55;99;105;101;104;113;115;110;101;53;55;70;57;103;116;122;102;49;80;86;100;114;50;86;80;51]
+  /\ parse_account_address H4 (print_account_address H4 (repeat 0 32)) = Some (repeat 0 32)
+  /\ parse_account_address (fun _ => [30; 99; 119; 167]) (print_account_address H4 (repeat 0 32)) = None.
+Proof. repeat split; vm_compute; reflexivity. Qed.
+Print Assumptions account_address_nonvacuous.
 
 Example ordered_reject_nonvacuous :
   strict_sorted N.ltb [1; 3; 2] = false /\ strict_sorted N.ltb [1; 2; 2] = false
